@@ -270,6 +270,34 @@ def rule_r4(ck, prog, rule='C17.R4'):
                 from_prev = any(sn['k'] == 'call' and strip_targs(sn.get('c', '')).endswith('::Get') and access_path(sf, sn['obj'], sc)[:1] == ('this',) for (sf, sn, sc) in objsrc)
                 ok = from_prev
                 why = 'the delta is not previous->Diff(current)'
+                if ok:
+                    # what goes into the delta table on the path of the Diff is the Diff result itself - not the result folded
+                    # into something else again (e.g. merged back into the previous total)
+                    dvars = {dd['id'] for n_ in f.nodes if n_['k'] == 'declstmt' for dd in n_['decls'] if dd.get('init') is not None and d['i'] in list(f.subtree(dd['init'])) + [dd['init']]}
+                    dp = g.point_of.get((id(g.root_ctx), d['i']))
+                    after = g.reachable_from([q for (q, _l) in dp.succ]) if dp is not None else set()
+                    # the table the Diff result does NOT describe is the one that receives the current observation (aggr)
+                    for tbl, pts in sets.items():
+                        for p_ in pts:
+                            if p_.id not in after or len(p_.n.get('args', [])) < 2:
+                                continue
+                            v = p_.n['args'][1]
+                            sub = [f.nodes[i] for i in list(f.subtree(v)) + [v]]
+                            mentions = any(n_['k'] == 'ref' and n_.get('id') in dvars for n_ in sub) or any(n_ is d for n_ in sub)
+                            if not mentions:
+                                continue
+                            vv = strip_casts(f, v)
+                            while vv['k'] == 'call' and strip_targs(vv.get('c', '')) in ('std::move', 'std::forward') and vv.get('args'):
+                                vv = strip_casts(f, vv['args'][0])
+                            while vv['k'] == 'construct' and len(vv.get('args', [])) == 1:
+                                vv = strip_casts(f, vv['args'][0])
+                                while vv['k'] == 'call' and strip_targs(vv.get('c', '')) in ('std::move', 'std::forward') and vv.get('args'):
+                                    vv = strip_casts(f, vv['args'][0])
+                            direct = (vv['k'] == 'ref' and vv.get('id') in dvars) or vv is d
+                            if not direct:
+                                ok = False
+                                why = 'the value stored in %s is computed from the Diff result (%s) instead of being the difference itself: a delta reader receives more than what was observed since its last collection' % (
+                                    tbl, strip_targs(vv.get('c', '') or vv['k']).rsplit('::', 1)[-1])
             elif ok:
                 ok = False
                 why = 'no Diff against the previous observation'
